@@ -7,7 +7,15 @@ func init() {
 	cloneOld := "func (r CloneFunc[T]) Clone(t T) T {\n	return r(t)\n}"
 	ciaOld := "func (r *CopyOnWriteMap[K, V]) ComputeIfAbsent(k K, f func() V) V {\n	return r.ComputeIf(k, func(V) bool {\n		return false\n	}, f)\n}"
 	onSuccessOld := "func (r Future[T]) OnSuccess(cb func(success T), ctx ...Executor) {\n	r.OnComplete(func(try Try[T]) {"
+	travOld := "	return FoldM(fp.IteratorOfSeq(sa), fp.Seq[R]{}, func(acc fp.Seq[R], a A) fp.Try[fp.Seq[R]] {\n		return Map(fa(a), acc.Add)\n	})\n}\n\nfunc TraverseSlice["
+	travEager := "	tsr := make([]fp.Try[R], 0, len(sa))\n	for _, a := range sa {\n		tsr = append(tsr, fa(a))\n	}\n	return Map(Sequence(tsr), func(v []R) fp.Seq[R] { return v })\n}\n\nfunc TraverseSlice["
+	travLoop := "	acc := make(fp.Seq[R], 0, len(sa))\n	for _, a := range sa {\n		t := fa(a)\n		if t.IsFailure() {\n			return Failure[fp.Seq[R]](t.Failed().Get())\n		}\n		acc = append(acc, t.Get())\n	}\n	return Success(acc)\n}\n\nfunc TraverseSlice["
+	ifmOld := "		for r.HasNext() {\n			nextItr := mf(r.Next())\n			current = Some(nextItr)\n			if nextItr.HasNext() {\n				return true\n			}\n		}\n\n		return false\n	}\n\n	return MakeIterator(\n		hasNext,\n		func() T {\n			if hasNext() {\n				return current.Get().Next()"
+	ifmBad := "		if !r.HasNext() {\n			return false\n		}\n		current = Some(mf(r.Next()))\n		return current.Get().HasNext()\n	}\n\n	return MakeIterator(\n		hasNext,\n		func() T {\n			if hasNext() {\n				return current.Get().Next()"
+	ifmGood := "		for {\n			if !r.HasNext() {\n				return false\n			}\n			current = Some(mf(r.Next()))\n			if current.Get().HasNext() {\n				return true\n			}\n		}\n	}\n\n	return MakeIterator(\n		hasNext,\n		func() T {\n			if hasNext() {\n				return current.Get().Next()"
 	addMutants(
+		Mutant{"C02", "traverseseq-maps-then-sequences", "try/try_traverse.go", travOld, travEager, "R-LOOPSTOP/try.TraverseSeq", "the step function runs for every element before any result is looked at"},
+		Mutant{"C20", "iterator-flatmap-single-step", "iterator.go", ifmOld, ifmBad, "R-SKIPEMPTY/fp.Iterator.FlatMap", "an empty inner iterator ends the answer"},
 		Mutant{"C10", "lesseq-negation-unswapped", "typeclass.go", lessEqOld, "func (r LessFunc[T]) LessEq(a, b T) bool {\n	return !r(a, b)\n}", "R-NEGLESS/fp.LessFunc.LessEq", "¬(a<b) is a≥b"},
 		Mutant{"C18", "clonefunc-nil-hands-argument-back", "typeclass.go", cloneOld, "func (r CloneFunc[T]) Clone(t T) T {\n	if r == nil {\n		return t\n	}\n	return r(t)\n}", "R-CLONEID/fp.CloneFunc.Clone", "a nil instance returns the original uncloned"},
 		Mutant{"C09", "ptrgiven-compares-addresses", "eq/eq_op.go", "	return Ptr(lazy.Done(Given[T]()))", "	return Given[*T]()", "R-PTRIDENT/eq.PtrGiven", "== on pointers compares addresses"},
@@ -15,6 +23,8 @@ func init() {
 		Mutant{"C05", "onsuccess-fast-path-falls-through", "future.go", onSuccessOld, "func (r Future[T]) OnSuccess(cb func(success T), ctx ...Executor) {\n	if r.IsCompleted() {\n		if v := r.Value(); v.IsSuccess() {\n			getExecutor(ctx...).ExecuteUnsafe(RunnableFunc(func() {\n				cb(v.Get())\n			}))\n		}\n	}\n	r.OnComplete(func(try Try[T]) {", "R-ONEDISPATCH/fp.Future.OnSuccess/cb", "fast path without return: the call-back is dispatched and registered"},
 	)
 	addSilent(
+		Mutant{"C02", "traverseseq-explicit-loop-with-early-return", "try/try_traverse.go", travOld, travLoop, "", "plain loop that leaves at the first failure"},
+		Mutant{"C20", "iterator-flatmap-endless-for", "iterator.go", ifmOld, ifmGood, "", "for { … } with the exhaustion test inside"},
 		Mutant{"C10", "lesseq-negation-swapped", "typeclass.go", lessEqOld, "func (r LessFunc[T]) LessEq(a, b T) bool {\n	return !r(b, a)\n}", "", "a≤b as ¬(b<a)"},
 		Mutant{"C18", "clonefunc-through-local", "typeclass.go", cloneOld, "func (r CloneFunc[T]) Clone(t T) T {\n	cloned := r(t)\n	return cloned\n}", "", "result bound to a local first"},
 		Mutant{"C19", "computeifabsent-optimistic-read-then-computeif", "mutable/copyonwrite.go", ciaOld, "func (r *CopyOnWriteMap[K, V]) ComputeIfAbsent(k K, f func() V) V {\n	if cur := r.Get(k); cur.IsDefined() {\n		return cur.Get()\n	}\n	return r.ComputeIf(k, func(V) bool {\n		return false\n	}, f)\n}", "", "optimistic read before a publisher that re-checks under the lock"},
